@@ -198,6 +198,7 @@ def _connect_one(ctx: Ctx, c: Collector) -> None:
     ZERO = call(T.glob(INTERVAL), sg, dg)
     dcalls = [e for e in s.of_kind("call") if e.term[1] == T.glob(INTERVAL)]
     full = [e for e in dcalls if _same_interval_call(e.term, DELAY)]
+    D_term = full[0].term if full else None
     first_eff = min((e.idx for _, e in effects), default=10 ** 9)
     if not full:
         c.bad("delay", CONNECT_ONE, "connection delay", "the connection's delay is not connect_interval(src_group, dest_group, int(time_shifted), int(weak)) of the two entities' own groups", loc)
@@ -228,6 +229,98 @@ def _connect_one(ctx: Ctx, c: Collector) -> None:
                         f"initial data is stored as {T.show(full)[:100]} := {T.show(e.term[2])[:40]}: other initial data of the same entity is overwritten / the layout differs from what get_output_for() returns", ctx.loc(fi, e))
                 okv = T.contains(full, ("unop", "-", call(T.glob("int"), ts))) or T.contains(full, ("op", "-", T.const(0), call(T.glob("int"), ts)))
                 c.check(okv, "delay", CONNECT_ONE, "initial data is cached at time -time_shifted", f"initial data is cached under {T.show(e.term[1])[:120]}: it is not what a consumer shifted by time_shifted reads at its first steps", ctx.loc(fi, e))
+    _ports(ctx, c, s, fi, effects, src, dest, src_attr, das, src_sim, dest_sim, D_term, init)
+
+
+def _key_path(t: Term) -> Optional[Tuple[Term, List[Term]]]:
+    """`X.setdefault(k1, _).setdefault(k2, _)[k3]` -> (X, [k1, k2, k3]); X an attribute of something."""
+    keys: List[Term] = []
+    t = T.strip(t)
+    while True:
+        if t[0] == "idx":
+            keys.append(T.strip(t[2]))
+            t = T.strip(t[1])
+        elif t[0] == "call" and t[1][0] == "attr" and t[1][2] in ("setdefault", "get") and 1 <= len(t[2]) <= 2:
+            keys.append(T.strip(t[2][0]))
+            t = T.strip(t[1][1])
+        else:
+            break
+    if t[0] != "attr":
+        return None
+    return t, list(reversed(keys))
+
+
+def _ports(ctx: Ctx, c: Collector, s, fi, effects, src, dest, src_attr, das, src_sim, dest_sim, D, init) -> None:
+    """Writer / reader agreement of the data-flow tables: what get_outputs, get_input_data and notify_dependencies unpack is what
+    connect_one files -- source port (src.eid, src_attr), destination port (dest.eid, dest_attr), the source's full id as the innermost
+    key of the persistent inputs, the source attribute in the output request."""
+    DA = T.var("§dest_attr")
+    norm = {d: DA for d in das}
+    SE, DE = ("attr", src, "eid"), ("attr", dest, "eid")
+    SF, DF = ("attr", src, "full_id"), ("attr", dest, "full_id")
+    SP, DP = ("tuple", (SE, src_attr)), ("tuple", (DE, DA))
+    vocab = {SE, DE, SF, DF, src_attr, DA, src_sim, dest_sim}
+    if D is not None:
+        vocab.add(D)
+
+    def known(x: Term) -> bool:
+        x = T.strip(x)
+        if x in vocab or x == T.NONE or x == init:
+            return True
+        return x[0] == "tuple" and all(known(y) for y in x[1])
+    want = {
+        "output_request": (src_sim, [SE], src_attr),
+        "output_to_push": (src_sim, [SP], ("tuple", (dest_sim, D, DP))),
+        "triggers": (src_sim, [SP], ("tuple", (dest_sim, D))),
+        "pulled_inputs": (dest_sim, [("tuple", (src_sim, D))], ("tuple", (SP, DP))),
+    }
+    names = {SE: "src.eid", DE: "dest.eid", SF: "src.full_id", DF: "dest.full_id", src_attr: "src_attr", DA: "dest_attr", src_sim: "src_sim", dest_sim: "dest_sim", D: "delay"}
+
+    def show(x: Term) -> str:
+        x = T.strip(x)
+        if x in names:
+            return names[x]
+        if x[0] == "tuple":
+            return "(" + ", ".join(show(y) for y in x[1]) + ")"
+        return T.show(x)[:30]
+    pr: Dict[str, List[str]] = {}
+    n = 0
+    for tb, e in effects:
+        full = T.replace(unalias(e.term, s, fi), norm)
+        if tb in want and e.kind == "call" and e.term[1][2] in ("append", "add") and len(full[2]) == 1:
+            kp = _key_path(full[1][1])
+            arg = T.strip(full[2][0])
+            if kp is None or D is None:
+                continue
+            owner, keys, val = want[tb]
+            n += 1
+            if kp[0] != ("attr", owner, tb) and kp[0][0] == "attr" and kp[0][1] in (src_sim, dest_sim):
+                pr.setdefault(tb, []).append(f"the entry goes into the table of the {'destination' if kp[0][1] == dest_sim else 'source'} simulator")
+            if all(known(k) for k in kp[1]) and kp[1] != keys:
+                pr.setdefault(tb, []).append(f"filed under {', '.join(show(k) for k in kp[1])} instead of {', '.join(show(k) for k in keys)}")
+            if known(arg) and arg != val:
+                pr.setdefault(tb, []).append(f"the entry is {show(arg)} instead of {show(val)}")
+        elif tb == "persistent_inputs":
+            target = None
+            if e.kind == "store":
+                target = full[1]
+            elif e.kind == "call" and e.term[1][2] == "setdefault":
+                target = full
+            if target is None:
+                continue
+            kp = _key_path(target)
+            if kp is None:
+                continue
+            n += 1
+            if kp[0] != ("attr", dest_sim, "persistent_inputs"):
+                pr.setdefault(tb, []).append("the persistent input is filed with the source simulator")
+            if len(kp[1]) == 3 and all(known(k) for k in kp[1]) and kp[1] != [DE, DA, SF]:
+                pr.setdefault(tb, []).append(f"filed under {', '.join(show(k) for k in kp[1])} instead of dest.eid, dest_attr, src.full_id (what get_input_data merges into the step inputs)")
+    for tb in ("output_request", "output_to_push", "triggers", "pulled_inputs", "persistent_inputs"):
+        if tb in pr:
+            c.bad("ports", CONNECT_ONE, f"{tb}: source port / destination port / full id as the readers unpack them", "; ".join(dict.fromkeys(pr[tb])), fi.loc)
+    if not pr:
+        c.ok("ports", CONNECT_ONE, "source port / destination port / full id as the readers unpack them", f"{n} entries", fi.loc)
 
 
 def _same_interval_call(t: Term, want: Term) -> bool:
@@ -308,6 +401,19 @@ def _connect(ctx: Ctx, c: Collector) -> None:
                 pr.append("the attribute pairs are kept in a dict keyed by one of their attributes: of several pairs with the same key only the last one is validated and connected")
         if not any(r == "body" for _, r in e.tries):
             pr.append("errors of single pairs are not collected")
+        # initial data is given per *source* attribute (documented: {'src_attr': value})
+        idt = kw.get("initial_data")
+        tgt = e.iters[0][1] if len(e.iters) == 1 else None
+        if idt is not None and tgt is not None and tgt[0] == "tuple" and len(tgt[1]) == 2:
+            idt = unalias(idt, s, fi)
+            key = None
+            if idt[0] == "call" and idt[1][0] == "attr" and idt[1][2] == "get" and idt[1][1] == T.var("initial_data") and idt[2]:
+                key = idt[2][0]
+            elif idt[0] == "idx" and idt[1] == T.var("initial_data"):
+                key = idt[2]
+            if key is not None and key == tgt[1][1] and key != tgt[1][0]:
+                pr.append("the initial data of a pair is looked up under the destination attribute: it is documented (and filed by connect_one) per source attribute, so with "
+                          "differently named attributes the data is lost and the connection rejected or left without a first value")
     raises = [e for e in s.of_kind("raise") if e.term[0] == "call" and e.term[1] == T.glob(SCENERR)]
     if not raises:
         pr.append("collected errors are not re-raised as ScenarioError")
